@@ -226,6 +226,37 @@ func (l *Local) Writes(o *lib.Pt, pp **lib.Pt, e error, ch chan lib.Pt) {
 	[]*lib.Pt{o}[0].X = 1
 	map[string]*lib.Pt{}["a"].X = 1
 	_ = e
+	// index / parenthesis / dereference layers around the assigned operand, in every order
+	type grid [][]int
+	g := &grid{{1}}
+	(*g)[0][0] = 0
+	(*g)[0][0]++
+	(o.Xs)[0] = 1
+	((o.Xs))[0] = 1
+	(o.Xs)[0]++
+	(o.Cache)["k"] = 1
+	((o).Cache)["k"]++
+	rows := [][]*lib.Pt{{o}}
+	rows[0][0].X = 1
+	(rows[0])[0].X = 2
+	(rows)[0][0].X++
+	(*(&rows))[0][0].Y = 3
+	(*pp).Xs[0] = 1
+	(*(*pp)).Xs[0] += 1
+	((*pp).Xs)[0] -= 1
+	[][]int{{1}}[0][0] = 2
+	mm := map[string][]int{"a": {1}}
+	mm["a"][0] = 1
+	(mm["a"])[0] = 1
+	(mm)["a"] = nil
+	cells := [][]lib.Pt{{*o}}
+	cells[0][0].X = 1
+	(cells[0][0]).X = 1
+	(cells)[0][0].Xs[0] = 1
+	((cells)[0])[0].Xs[0]++
+	ptrs := []*[]lib.Pt{&cells[0]}
+	(*ptrs[0])[0].X = 1
+	(*(ptrs)[0])[0].Xs[0] = 1
 }
 
 @F@
